@@ -382,6 +382,44 @@ func c04readers(pf *frugal.FProtocolFactory, wname string, w []byte, H map[strin
 		return wname + "->readHeader", "map differs"
 	}
 	retain(wname+"->readHeader", got, H)
+	// the same stream delivered a few bytes per Read (a socket does)
+	dr := &dribble{b: append([]byte(nil), stream...), step: 1 + len(stream)%7}
+	gotD, err := frugal.VerifReadHeader(dr)
+	if err != nil {
+		return wname + "->readHeader(short reads)", err.Error()
+	}
+	if !mapsEqual(gotD, H) || len(dr.b)-dr.off != len(payload) {
+		return wname + "->readHeader(short reads)", "map differs or payload not left untouched when the stream delivers a few bytes per Read"
+	}
+	// the built-in context reused for a second reply: every header of the block
+	// just read is what the context reports afterwards, also for names an
+	// earlier reply already set
+	{
+		rctx := frugal.NewFContext("")
+		first := map[string]string{}
+		for k := range H {
+			if k != "_opid" {
+				first[k] = "earlier-" + k
+			}
+		}
+		first["only-in-first"] = "kept"
+		for i, block := range [][]byte{wire.EncodeHeaders(wire.MapToPairs(first)), w} {
+			tb := &thrift.TMemoryBuffer{Buffer: bytes.NewBuffer(append([]byte(nil), block...))}
+			if err := pf.GetProtocol(tb).ReadResponseHeader(rctx); err != nil {
+				return wname + "->ReadResponseHeader(reused context)", fmt.Sprintf("read %d: %v", i+1, err)
+			}
+		}
+		gotR := rctx.ResponseHeaders()
+		wantR := copyMap(first)
+		for k, v := range H {
+			if k != "_opid" {
+				wantR[k] = v
+			}
+		}
+		if !mapsEqual(gotR, wantR) {
+			return wname + "->ReadResponseHeader(reused context)", "after a second reply was read into the same context its response headers are not the second reply's (plus the first reply's other names)"
+		}
+	}
 	rest := make([]byte, r.Len())
 	r.Read(rest)
 	if !bytes.Equal(rest, payload) {
